@@ -420,6 +420,21 @@ def run_shard(shard, tier, acc):
                 acc.sample({'layer': 'terminal', 'encoding': enc, 'values': positions('é') + positions(' ')}, cap=1)
         elif kind == 'term_special':
             run_terminal(m, shard[1], special_cps(), 'all3', acc, root)
+            # position inside the file: each special value also as the FIRST line of a file of its own (start-of-file handling, byte order marks)
+            path = os.path.join(root, 'first.txt')
+            for cp in special_cps():
+                ch = chr(cp)
+                if not can_encode(ch, shard[1]):
+                    continue
+                for v in positions(ch):
+                    if not m['check_valid'](v):
+                        continue
+                    acc.evals += 1
+                    mm = roundtrip(m, path, [v, 'zz'], shard[1])
+                    if mm:
+                        acc.fail({'layer': 'terminal', 'encoding': shard[1], 'value': v, 'char': cp_name(ch), 'first_in_file': True},
+                                 'terminal value %r (%s, encoding %s) as the first line of a file does not come back unchanged: %s' % (v, cp_name(ch), shard[1], mm),
+                                 'terminal-first:' + cp_name(ch))
         else:
             enc = shard[1]
             cps = sorted(set(ord(bytes([b]).decode(enc)) for b in range(0x20, 0x100) if can_decode(b, enc)))
